@@ -49,8 +49,46 @@ func refsLocalOnly(v ssa.Value, root *ssa.Alloc) bool {
 				return false
 			}
 		case *ssa.DebugRef:
+		case *ssa.MakeClosure:
+			// captured by a closure that only reads it: still a plain variable of this function
+			if !closureOnlyReads(x, v) {
+				return false
+			}
 		default:
 			return false
+		}
+	}
+	return true
+}
+
+// closureOnlyReads: every free variable of the closure bound to v is only loaded (never stored to,
+// never passed on) inside the closure.
+func closureOnlyReads(mc *ssa.MakeClosure, v ssa.Value) bool {
+	fn, ok := mc.Fn.(*ssa.Function)
+	if !ok {
+		return false
+	}
+	for i, b := range mc.Bindings {
+		if b != v {
+			continue
+		}
+		if i >= len(fn.FreeVars) {
+			return false
+		}
+		refs := fn.FreeVars[i].Referrers()
+		if refs == nil {
+			return false
+		}
+		for _, r := range *refs {
+			switch y := r.(type) {
+			case *ssa.UnOp:
+				if y.Op != token.MUL {
+					return false
+				}
+			case *ssa.DebugRef:
+			default:
+				return false
+			}
 		}
 	}
 	return true
